@@ -1,4 +1,4 @@
-"""Regenerates Generated/SearchConstants.lean from /repo's working tree (ast only).
+"""Regenerates Generated/SearchConstants.lean from /repo's working tree (ast; behavioural probe of the real generator as a fallback).
 
 Reads
   * utils.py `ticket_generator`: the default of `initial`, the wrap literal, and checks that the body still
@@ -30,7 +30,7 @@ def _const(node) -> int:
     raise TranslateError(f'not an integer literal: {ast.dump(node)}')
 
 
-def _ticket_generator(repo: Path) -> tuple[int, int]:
+def _ticket_generator_by_shape(repo: Path) -> tuple[int, int]:
     tree = ast.parse((repo / 'src/aioslsk/utils.py').read_text())
     fn = next((n for n in tree.body if isinstance(n, ast.FunctionDef) and n.name == 'ticket_generator'), None)
     if fn is None:
@@ -53,6 +53,59 @@ def _ticket_generator(repo: Path) -> tuple[int, int]:
     if got != want.replace('LIT', str(lit)):
         raise TranslateError('ticket_generator body is no longer the loop the model transcribes: ' + got)
     return initial, lit
+
+
+def _ticket_generator_by_behaviour(repo: Path) -> tuple[int, int]:
+    """The body is not the loop the model transcribes literally (a rewrite): find the wrap literal among the integer
+    constants of utils.py and accept it only if the REAL generator behaves exactly like `Search.nextTicket` with it —
+    `next = idx + 1 if idx + 1 <= max else initial` — around the wrap and away from it (any other behaviour raises)."""
+    import importlib
+    import inspect
+    import itertools
+    src = repo / 'src/aioslsk/utils.py'
+    utils = importlib.import_module('aioslsk.utils')
+    if Path(inspect.getsourcefile(utils)).resolve() != src.resolve():
+        raise TranslateError(f'aioslsk.utils is imported from {utils.__file__}, not from {src}')
+    gen = getattr(utils, 'ticket_generator', None)
+    if gen is None:
+        raise TranslateError('utils.ticket_generator not found')
+    params = list(inspect.signature(gen).parameters.values())
+    if [q.name for q in params] != ['initial'] or not isinstance(params[0].default, int):
+        raise TranslateError('ticket_generator signature changed')
+    initial = params[0].default
+
+    def model(init, mx, n):
+        out, idx = [], init
+        for _ in range(n):
+            idx = idx + 1 if idx + 1 <= mx else init
+            out.append(idx)
+        return out
+
+    def real(init, n):
+        return list(itertools.islice(gen(init), n))
+    cands = sorted({n.value for n in ast.walk(ast.parse(src.read_text()))
+                    if isinstance(n, ast.Constant) and isinstance(n.value, int) and not isinstance(n.value, bool)
+                    and n.value >= 0xFFFF}, reverse=True)
+    for mx in cands:
+        probes = [(mx - 2, 9), (mx - 1, 5), (mx, 4), (initial, 6), (7, 5), (mx // 2, 4)]
+        if all(real(i, n) == model(i, mx, n) for i, n in probes):
+            # nothing wraps earlier than the model says: a run across every smaller candidate stays on +1
+            if all(real(c - 2, 5) == model(c - 2, mx, 5) for c in cands if c < mx):
+                return initial, mx
+    raise TranslateError(f'ticket_generator does not behave like the model (idx+1, wrap to `initial` above a literal) '
+                         f'for any integer constant of utils.py {cands[:6]}')
+
+
+def _ticket_generator(repo: Path) -> tuple[int, int]:
+    try:
+        return _ticket_generator_by_shape(repo)
+    except TranslateError as shape_error:
+        try:
+            return _ticket_generator_by_behaviour(repo)
+        except TranslateError as e:
+            raise TranslateError(f'{shape_error}; and: {e}')
+        except Exception as e:  # noqa: BLE001
+            raise TranslateError(f'{shape_error}; behavioural probe failed: {e!r}')
 
 
 def _module_int(repo: Path, rel: str, name: str) -> int:
